@@ -43,10 +43,13 @@ struct Params {
   // non-linear / coupled user term would: + kappa*(target - state).  The target stays the exact solution,
   // and any view that is stale or bound to the wrong part of the stepper's buffer shows up as a deviation.
   double kappa = 0.0;
+  // overall magnitude of every state-sized quantity (targets, sources, initial values); the equations are linear in it
+  double amp = 1.0;
   // H0 for expectation values: components h0a + x*h0b (diagonal generators and identity only)
   std::vector<std::vector<double>> h0a, h0b;
 
-  void generate(vh::Rng& r, unsigned nx_, unsigned d_, unsigned nr_, unsigned ns_, double ti_, RhoFamily f, bool scal_manu, bool constant_rates, double rate = 1.0) {
+  void generate(vh::Rng& r, unsigned nx_, unsigned d_, unsigned nr_, unsigned ns_, double ti_, RhoFamily f, bool scal_manu, bool constant_rates, double rate = 1.0, double amp_ = 1.0) {
+    amp = amp_;
     nx = nx_; d = d_; nr = nr_; ns = ns_; ti = ti_; fam = f; scalar_manufactured = scal_manu;
     size_t n = (size_t)nx * nr;
     R0.clear(); R1.clear(); R2.clear(); Ha.clear(); Hb.clear(); Ga.clear(); Gb.clear(); wa.clear(); wb.clear(); wh.clear(); wg.clear();
@@ -73,6 +76,10 @@ struct Params {
     for (size_t i = 0; i < m; i++) {
       s0.push_back(r.normal()); s1.push_back(r.normal()); ws.push_back(r.uni(0.5, 2));
       g0.push_back(r.uni(-0.3, 1.0) * rate); ga.push_back(constant_rates ? 0 : r.uni(0.1, 0.6)); gw.push_back(r.uni(0.5, 2)); q.push_back(r.normal() * rate);
+    }
+    if (amp != 1.0) {
+      for (size_t i = 0; i < n; i++) { R0[i] = amp * R0[i]; R1[i] = amp * R1[i]; R2[i] = amp * R2[i]; S[i] = amp * S[i]; }
+      for (size_t i = 0; i < m; i++) { s0[i] *= amp; s1[i] *= amp; q[i] *= amp; }
     }
     h0a.clear(); h0b.clear();
     for (unsigned ir = 0; ir < nr; ir++) {
